@@ -104,6 +104,16 @@ CLAIMED = {
             "presses and replay times >= recorded pauses / warp are judged; recorded text and the model's round trip compared",
             "CR, surrogates and keysyms > 0x10FFFF are the open finding c18-file-newlines; CPython text-mode I/O trusted",
             "Coq proof over the recorder/shlex/compiler/key-decoding models + exhaustive keysym sweep + differential correspondence"),
+    "C14": ("Coq theorems: the VNC key is the first eight password characters, NUL padded, bit-reversed per byte (all ASCII passwords, "
+            "any length; the code's shift/mask sum equals list-reversal of the bits on all 256 bytes); the client model writes "
+            "DES-ECB(key)(challenge); FIPS 46-3 DES written in Gallina is proved invertible for every key and block (Feistel lemma, "
+            "FP o IP = id) so a conforming server recovers its challenge; ARD: reply = 128 bytes + exactly keyLen key bytes, and a "
+            "server with the matching private exponent recovers the NUL-padded credentials for every generator/modulus/secret/key "
+            "length (modular exponentiation by squaring proved equal to b^e mod m; MD5/AES abstract); real client compared with the "
+            "spec DES, an independent server side, and the model",
+            "Cryptodome DES validated against the Gallina DES on known-answer vectors and random pairs on every run; MD5/AES "
+            "parameters; os.urandom on a tape; non-ASCII VNC passwords raise (outside the statement)",
+            "Coq proof (finite computation over 256 bytes, Feistel induction, Z.pow/mod algebra) + differential correspondence"),
 }
 NOT_YET = "check not built yet in this session (planned Coq model in DESIGN.md §3); not claimed"
 
